@@ -76,6 +76,40 @@ func runC03(c *kit.Ctx) {
 				o.OK("delta pairs with the write")
 			}
 		}
+		// a batch of two points: the checksum of the second, unrelated point enters the
+		// delta handed to the propagation exactly once, whatever happened to the first
+		for _, order := range []int{1, 2} {
+			o := r2.Ob(w.F, wl.anchor, w.Table+": second point of a batch, "+map[int]string{1: "after", 2: "before"}[order]+" the other", "the checksum of a second, newly written point of the batch is in the propagated delta exactly once")
+			bad, undec, n := "", "", 0
+			for _, v := range []mergeVal{{rows: 0}, {rows: 1, eqType: true, eqKey: true, order: "lt"}, {rows: 1, eqType: true, eqKey: true, order: "gt"}} {
+				v.second = order
+				out := wl.run(v)
+				c.AddValuations(1)
+				for _, sx := range out.second {
+					parts := strings.SplitN(sx, "|", 4)
+					if len(parts) != 4 || parts[0] != "1" || parts[1] != "" {
+						continue // C01/R3 reports the write side
+					}
+					n++
+					switch {
+					case parts[3] == "?" || strings.Contains(parts[3], "?"):
+						undec = "the value handed to the propagation entry cannot be traced (" + v.String() + ")"
+					case parts[2] != "1":
+						bad = "other point: " + v.String() + "; the second point is written but its checksum is in the propagated delta " + parts[2] + " times {" + parts[3] + "}"
+					}
+				}
+			}
+			switch {
+			case bad != "":
+				o.Violation("%s", bad)
+			case n == 0:
+				o.Undecided("no successful two-point path in the symbolic evaluation")
+			case undec != "":
+				o.Undecided("%s", undec)
+			default:
+				o.OK("%d exits", n)
+			}
+		}
 	}
 	// R9: the checksum is taken from the queued incoming point; the statement must
 	// bind exactly those field values, otherwise stored content and stored hash differ
@@ -89,6 +123,16 @@ func runC03(c *kit.Ctx) {
 			o.Undecided("%s", undec)
 		} else {
 			o.OK("five hashed columns bound from the queued point")
+		}
+		// a guard on the upsert that skips a row the merge decided to overwrite leaves the
+		// old content under a hash that already contains the new checksum
+		og := r9.Ob(w.F, w.Exec.Prepared.Call, w.Table+": upsert applies whenever the merge folded", "ON CONFLICT DO UPDATE is unconditional, or guarded by the merge's own condition")
+		if gbad, gundec := upsertGuardProblem(w.Exec.Stmts[0], w.Table); gbad != "" {
+			og.Violation("%s: for an equal-time rewrite the delta (old checksum out, new one in) reaches the edge and its ancestors while the row keeps the old content", gbad)
+		} else if gundec != "" {
+			og.Undecided("%s", gundec)
+		} else {
+			og.OK("no guard that contradicts the merge")
 		}
 	}
 	hm := newHashModel(c, m)
